@@ -266,3 +266,96 @@ Example C18_hypotheses_satisfiable :
 Proof.
   split; [exact ex_env_answers|]. split; [unfold addr_ok; lia|]. split; [exact ll_new_rep|exact ex_run].
 Qed.
+Print Assumptions C18_hypotheses_satisfiable.
+
+(* ------------------------------------------------------------------ the ground-truth oracle *)
+From PB Require Import ScanTruth C18Truth.
+
+(* The check's ground-truth oracle (converges_to_population) knows from the case line who is on
+   the bus: `pop` = the population after the last change, `window` = the call of the last change.
+   Its decision is the function truth_ok of Model/ScanTruth.v (extracted; the driver only parses
+   the case line): per address 0..125 expected in the list (in pop, not TS) the LAST probe inside
+   the window decides - never probed: failure; answered validly: must be listed; anything else: no
+   demand - and nothing else may be listed, bits 126/127 of the array included.
+
+   Soundness: from ANY state (cursor in range, no uncollected event; bits 126/127 clear, see
+   below), for any history h of at least window + one sweep of calls (a fortiori two): if the
+   window is explained by the population - every probe of an address that is not expected timed
+   out (explained; nothing is assumed about the members: valid answer, other answer, no answer) -
+   then the rule accepts the transcript, with `final` = the station set after the last poll
+   exactly as the driver reads it (last_bits).  A converges_to_population failure on a clean case
+   can only come from the implementation.
+
+   EXACT CONDITION: the rule also looks at bits 126 and 127 of the 128 bit station array.  The
+   sweep never touches them (C18_cursor), so a state that has them set keeps them; the hypothesis
+   that they are clear at the start (true of new()) cannot be dropped: C18_ground_truth_needs_hi_clear.
+   The live list's lenient marking (O1: any reply marks) and the own address need no exclusion:
+   members that answer with something else are left open by the rule, and the own address is
+   not expected, so its probes are required to time out like those of any absent station. *)
+Theorem C18_ground_truth_sound : forall ts pop window s h s' tr, addr_ok ts -> ll_rep s ->
+  ll_run ts s h = Ok (s', tr) -> (window + sweep_polls <= length h)%nat ->
+  Z.testbit (ll_stations s) 126 = false -> Z.testbit (ll_stations s) 127 = false ->
+  explained ts pop (skipn window (map ll_abs tr)) = true ->
+  last_bits 0 (map ll_abs tr) = ll_stations s' /\
+  truth_ok ts pop window (ll_stations s') (map ll_abs tr) = true.
+Proof. exact ll_truth_sound. Qed.
+Print Assumptions C18_ground_truth_sound.
+
+Theorem C18_ground_truth_sound_scanner : forall ts pop window s h s' tr, addr_ok ts -> sc_rep s ->
+  sc_run ts s h = Ok (s', tr) -> (window + sweep_polls <= length h)%nat ->
+  Z.testbit (sc_stations s) 126 = false -> Z.testbit (sc_stations s) 127 = false ->
+  explained ts pop (skipn window (map sc_abs tr)) = true ->
+  last_bits 0 (map sc_abs tr) = sc_stations s' /\
+  truth_ok ts pop window (sc_stations s') (map sc_abs tr) = true.
+Proof. exact sc_truth_sound. Qed.
+Print Assumptions C18_ground_truth_sound_scanner.
+
+(* The same with the environment as the case line describes it: ANY history h1, then a phase h2
+   of one sweep of calls or more in which every address outside the population - and the own
+   address - is silent (silent_outside; members may do anything, per poll): the rule accepts,
+   with window = the length of h1 and the station set read off the transcript as the driver does. *)
+Theorem C18_ground_truth_sound_env : forall ts pop s h1 h2 s' tr, addr_ok ts -> ll_rep s ->
+  ll_run ts s (h1 ++ h2) = Ok (s', tr) -> (sweep_polls <= length h2)%nat ->
+  Z.testbit (ll_stations s) 126 = false -> Z.testbit (ll_stations s) 127 = false ->
+  Forall (silent_outside ts pop) h2 ->
+  truth_ok ts pop (length h1) (last_bits 0 (map ll_abs tr)) (map ll_abs tr) = true.
+Proof. exact ll_truth_sound_env. Qed.
+Print Assumptions C18_ground_truth_sound_env.
+
+Theorem C18_ground_truth_sound_env_scanner : forall ts pop s h1 h2 s' tr, addr_ok ts -> sc_rep s ->
+  sc_run ts s (h1 ++ h2) = Ok (s', tr) -> (sweep_polls <= length h2)%nat ->
+  Z.testbit (sc_stations s) 126 = false -> Z.testbit (sc_stations s) 127 = false ->
+  Forall (silent_outside ts pop) h2 ->
+  truth_ok ts pop (length h1) (last_bits 0 (map sc_abs tr)) (map sc_abs tr) = true.
+Proof. exact sc_truth_sound_env. Qed.
+Print Assumptions C18_ground_truth_sound_env_scanner.
+
+(* the hypothesis on bits 126/127 is needed: a state with bit 126 set, two silent sweeps, empty
+   population - bit 126 is still set and the rule reports it *)
+Theorem C18_ground_truth_needs_hi_clear :
+  match ll_run 1 (mkLl (2 ^ 126) 0 None false) (repeat (fun _ => RTimeout) 504) with
+  | Ok (s', tr) => truth_ok 1 [] 0 (ll_stations s') (map ll_abs tr) = false
+  | _ => False
+  end.
+Proof. exact ll_truth_hi_bit_needed. Qed.
+Print Assumptions C18_ground_truth_needs_hi_clear.
+
+(* Non-vacuity, a model run: station 1 scans one sweep from new(); 3 answers validly, 5 answers
+   with a bare SC, 9 is on the bus but never heard, all others are silent.  The window is
+   explained by {3, 5, 9} and accepted (final set {3, 5}: the live list lists 5, which the rule
+   leaves open); the same transcript is rejected with 3 missing from the final set, with the
+   silent address 7 listed, and - cut to 5 polls - because 3, 5, 9 were never probed. *)
+Example C18_ground_truth_example :
+  match ll_run 1 ll_new (repeat tr_env 252) with
+  | Ok (s', tr) =>
+      explained 1 [3; 5; 9] (map ll_abs tr) = true /\
+      ll_stations s' = 40 /\
+      truth_ok 1 [3; 5; 9] 0 (ll_stations s') (map ll_abs tr) = true /\
+      truth_bad 1 [3; 5; 9] 0 (Z.clearbit (ll_stations s') 3) (map ll_abs tr) = [(3, TValidNotListed)] /\
+      truth_ok 1 [3; 5; 9] 0 (Z.clearbit (ll_stations s') 3) (map ll_abs tr) = false /\
+      truth_bad 1 [3; 5; 9] 0 (Z.setbit (ll_stations s') 7) (map ll_abs tr) = [(7, TListedNotOnBus)] /\
+      truth_bad 1 [3; 5; 9] 0 (ll_stations s') (firstn 5 (map ll_abs tr)) = [(3, TNeverProbed); (5, TNeverProbed); (9, TNeverProbed)]
+  | _ => False
+  end.
+Proof. exact ll_truth_example. Qed.
+Print Assumptions C18_ground_truth_example.
